@@ -2,7 +2,7 @@
 META = {
     "level": 'exploration',
     "technique": 'policy oracle from docs/garbage-collection.rst on the real LeaseCheckingCrawler: every expiry configuration x shares whose leases were renewed at threshold +-{1 s, 1 day, 1 year}, virtual clock, one forced full crawl cycle (and a second one two years later)',
-    "text": 'Creates real share files through the real StorageServer (immutable: allocate_buckets/write/close, mutable: slot_testv_and_readv_and_writev) with 0..5 leases each, added and renewed through add_lease/renew_lease/allocate_buckets at chosen instants of a virtual clock (epoch ~1.7e9; the clock drives StorageServer(clock=...) and the `time` global of storage.expirer/lease/crawler). Enumerates all 88 policy configurations: expiration enabled/disabled x (age mode with override None/1d/10d/31d/60d/400d | cutoff-date mode with cutoff now-400d/-40d/-31d/-1d/+1d) x share types (both, mutable, immutable, none). The real lease crawler then runs exactly one full cycle (start_slice with an unbounded cpu_slice). Oracle (the statement): disabled => every share still present and readable; enabled => a share whose type is not enabled or that holds at least one lease that is not expired (age: renewal + duration >= now; cutoff: renewal >= cutoff) is still present with its data intact, and a share of an enabled type all of whose (>=1) leases are expired is gone. Buckets holding 2..4 shares (uploaded together) get ONE share file damaged before the crawl (bad version magic, truncated header, zero length), the victim taken at every os.listdir position in turn: the healthy shares listed before and after it are judged as usual. Renewal exactly at the threshold instant, zero-lease shares, damaged share files themselves and leases that share a cancel secret are generated, counted and not judged. A second cycle two years later re-judges the survivors.',
+    "text": 'Creates real share files through the real StorageServer (immutable: allocate_buckets/write/close, mutable: slot_testv_and_readv_and_writev) with 0..5 leases each, added and renewed through add_lease/renew_lease/allocate_buckets at chosen instants of a virtual clock (epoch ~1.7e9; the clock drives StorageServer(clock=...) and the `time` global of storage.expirer/lease/crawler). Enumerates all 88 policy configurations: expiration enabled/disabled x (age mode with override None/1d/10d/31d/60d/400d | cutoff-date mode with cutoff now-400d/-40d/-31d/-1d/+1d) x share types (both, mutable, immutable, none). The real lease crawler then runs exactly one full cycle (start_slice with an unbounded cpu_slice). Oracle (the statement): disabled => every share still present and readable; enabled => a share whose type is not enabled or that holds at least one lease that is not expired (age: renewal + duration >= now; cutoff: renewal >= cutoff) is still present with its data intact, and a share of an enabled type all of whose (>=1) leases are expired is gone. A second family builds the storage server the way a node does - tahoe.cfg [storage] expire.enabled/mode/override_lease_duration/cutoff_date and expire.immutable/expire.mutable in all 3x3 combinations of true/false/absent, read by allmydata.client.read_config and turned into a StorageServer by the real _Client.get_anonymous_storage_server() (on a _Client subclass with a trivial __init__) - and applies the same oracle. Buckets holding 2..4 shares (uploaded together) get ONE share file damaged before the crawl (bad version magic, truncated header, zero length), the victim taken at every os.listdir position in turn: the healthy shares listed before and after it are judged as usual. Renewal exactly at the threshold instant, zero-lease shares, damaged share files themselves and leases that share a cancel secret are generated, counted and not judged. A second cycle two years later re-judges the survivors.',
     "note": 'Trusts the 10-line expiry predicate and the virtual clock shim. Presence is observed through StorageServer.get_shares() and reads through get_buckets()/slot_readv(). One crawl cycle without restarts (restart behaviour is C27).',
 }
 LEVEL = "exploration"
@@ -202,6 +202,9 @@ def run(ck):
     from allmydata.storage.immutable import ShareFile
     from allmydata.storage.common import storage_index_to_dir
     from twisted.internet.task import Clock
+    from twisted.application import service
+    from allmydata import client as client_mod
+    import time
 
     ck.rule = ("case = (policy configuration, share): 88 configurations (enabled x {age: override None/1d/10d/31d/60d/400d; "
                "cutoff-date: now-400d/-40d/-31d/-1d/+1d} x sharetypes both/mutable/immutable/none), each with ~100 real "
@@ -239,7 +242,57 @@ def run(ck):
             return None
         return r[share.shnum][0]
 
+    class ConfigOnlyClient(client_mod._Client):
+        """A _Client without tub, introducer, web server...: just enough state for the real
+        get_anonymous_storage_server() to turn tahoe.cfg into a StorageServer (a whole node cannot be
+        created offline)."""
+
+        def __init__(self, config):
+            service.MultiService.__init__(self)
+            self.config = config
+            self.get_config = config.get_config      # as Node.__init__ does
+            self.nodeid = b"\x26" * 20
+            self.stats_provider = None
+
+    def node_storage_server(basedir, options):
+        lines = ["[client]", "[storage]", "enabled = true"] + ["%s = %s" % kv for kv in options]
+        with open(os.path.join(basedir, "tahoe.cfg"), "w") as f:
+            f.write("\n".join(lines) + "\n")
+        config = client_mod.read_config(basedir, "client.port")     # validates the option names too
+        return ConfigOnlyClient(config).get_anonymous_storage_server()
+
+    def node_configs(now):
+        """[storage] expire.* as an operator writes them: 3 policies x expire.immutable/mutable in
+        {true, false, absent}^2, plus expiration off / not mentioned."""
+        out = []
+        cutoff = ((now - 40 * DAY) // DAY) * DAY                     # midnight UTC, as parse_date() yields
+        policies = [("age", None, None, [("expire.mode", "age")]),
+                    ("age", 10 * DAY, None, [("expire.mode", "age"), ("expire.override_lease_duration", "10 days")]),
+                    ("cutoff-date", None, cutoff,
+                     [("expire.mode", "cutoff-date"),
+                      ("expire.cutoff_date", time.strftime("%Y-%m-%d", time.gmtime(cutoff)))])]
+        for mode, ov, cd, opts in policies:
+            for imm in (True, False, None):
+                for mut in (True, False, None):
+                    o = [("expire.enabled", "true")] + opts
+                    if imm is not None:
+                        o.append(("expire.immutable", str(imm).lower()))
+                    if mut is not None:
+                        o.append(("expire.mutable", str(mut).lower()))
+                    st = tuple(t for t, v in (("immutable", imm), ("mutable", mut)) if v is not False)
+                    out.append({"enabled": True, "mode": mode, "override": ov, "cutoff": cd,
+                                "cutoff_rel_days": None if cd is None else (cd - now) // DAY,
+                                "sharetypes": st, "now": now, "tahoe_cfg": o})
+        for o in ([("expire.enabled", "false"), ("expire.mode", "age")], []):
+            out.append({"enabled": False, "mode": "age", "override": None, "cutoff": None, "sharetypes":
+                        ("immutable", "mutable"), "now": now, "tahoe_cfg": o})
+        return out
+
     def describe(cfg):
+        if cfg.get("tahoe_cfg") is not None:
+            return {"tahoe.cfg [storage]": ["%s = %s" % kv for kv in cfg["tahoe_cfg"]],
+                    "meaning": {"enabled": cfg["enabled"], "mode": cfg["mode"], "sharetypes": cfg["sharetypes"],
+                                "override": cfg["override"], "cutoff": cfg["cutoff"]}}
         d = {k: cfg[k] for k in ("enabled", "mode", "sharetypes")}
         if cfg["mode"] == "age":
             d["override_lease_duration"] = cfg["override"]
@@ -255,15 +308,30 @@ def run(ck):
             clock.advance(now - 3 * YEAR)
             vt = VTime(clock)
             expirer_mod.time = lease_mod.time = crawler_mod.time = vt
-            ss = StorageServer(d, b"\x26" * 20,
-                               expiration_enabled=cfg["enabled"], expiration_mode=cfg["mode"],
-                               expiration_override_lease_duration=cfg["override"],
-                               expiration_cutoff_date=cfg["cutoff"],
-                               expiration_sharetypes=cfg["sharetypes"], clock=clock)
+            if cfg.get("tahoe_cfg") is not None:
+                # the way a node does it: tahoe.cfg -> read_config -> _Client.get_anonymous_storage_server()
+                ss = node_storage_server(d, cfg["tahoe_cfg"])
+                if not hasattr(ss, "_clock"):
+                    ck.inconclusive_because("StorageServer has no _clock to attach the virtual clock to")
+                    return
+                ss._clock = clock              # the node passes no clock; lease times must come from ours
+                ck.hit("server-built-from-tahoe-cfg")
+            else:
+                ss = StorageServer(d, b"\x26" * 20,
+                                   expiration_enabled=cfg["enabled"], expiration_mode=cfg["mode"],
+                                   expiration_override_lease_duration=cfg["override"],
+                                   expiration_cutoff_date=cfg["cutoff"],
+                                   expiration_sharetypes=cfg["sharetypes"], clock=clock)
             shares = build_population(cfg, now, ck.rng("pop", ci, ck.seed), ck.tier, shared_only)
+            if cfg.get("tahoe_cfg") is not None and ck.tier == "quick":
+                keep = [s for i, s in enumerate(shares)
+                        if s.tag in ("single", "all-expired", "one-valid-among-expired", "all-valid",
+                                     "bucket-with-two-shares") or (i % 4 == ci % 4 and not s.in_damaged_bucket)]
+                shares = keep
             if (not cfg["enabled"] or not cfg["sharetypes"]) and ck.tier == "quick":
                 # nothing may ever be deleted here whatever the leases: a third of the population is enough
-                keep = [s for i, s in enumerate(shares) if i % 3 == ci % 3 or s.tag.startswith("bucket-")]
+                keep = [s for i, s in enumerate(shares) if (i % 3 == ci % 3 and not s.in_damaged_bucket)
+                        or s.tag == "bucket-with-two-shares" or (s.in_damaged_bucket and ci % 4 == 0)]
                 shares = keep
             # ---- chronological lease plan on the virtual clock
             events = []
@@ -492,6 +560,15 @@ def run(ck):
             break
         with ck.watchdog(300, "configuration %d" % ci):
             one_config(ci, cfg)
+    # the storage server as the node builds it from tahoe.cfg
+    for ni, cfg in enumerate(node_configs(nows[0])):
+        if not ck.mine(ni):
+            continue
+        if not ck.more(min_cases=10 ** 9):
+            complete = False
+            break
+        with ck.watchdog(300, "tahoe.cfg configuration %d" % ni):
+            one_config(3000 + ni, cfg)
     # leases sharing a cancel secret: observation only (cancel_lease() removes every lease with that secret)
     for ci, cfg in enumerate(cfgs):
         if cfg["enabled"] and cfg["sharetypes"] == ("mutable", "immutable") and ck.mine(ci) \
@@ -503,7 +580,7 @@ def run(ck):
     ck.exhaustive = False      # configurations are enumerated completely, lease sets are structured + sampled
     ck.require_monitor("expiry-oracle", "survivor-data-oracle")
     ck.require_reach("full-cycle-completed", "all-leases-expired", "valid-lease-among-expired",
-                     "sharetype-filter-decides", "expired-share-listed-after-damaged-share",
+                     "sharetype-filter-decides", "server-built-from-tahoe-cfg", "expired-share-listed-after-damaged-share",
                      "expired-share-listed-before-damaged-share", "lease-renewed-through-renew_lease",
                      "lease-renewed-through-add_lease")
 
